@@ -3,11 +3,11 @@ import GMGProofs.Lemmas.Setup1
 # Helper lemmas for C20s — the cycle generators only touch what `setup()` provided
 -/
 namespace Setup
-open Cycle
+open MGCycle
 
 /-- the recursive plain cycle on level `d` (`fuel = levels - 1 - d`): fine as soon as level `d` has a plain smoother
     (automatic for `d ≠ 0`), `x`, `tmp` are writable and `rhs` is readable -/
-theorem plain_ok (c : Cfg) (cy : Cycle.Cfg) (hl : cy.levels = c.levels) :
+theorem plain_ok (c : Cfg) (cy : MGCycle.Cfg) (hl : cy.levels = c.levels) :
     ∀ (fuel : Nat) (k : Kind) (d : Nat) (x rhs tmp : Ref), d + fuel = c.levels - 1 →
       (d = 0 → (opsAt c 0).smoother = true) → wref c x → rref c rhs → wref c tmp →
       progOK c (plain cy k fuel d x rhs tmp) = true := by
@@ -70,7 +70,7 @@ theorem exSm_ok (c : Cfg) (fgs : Bool) (hm : c.extrapMode ≠ 0) (hf : fgsConsis
   | true => simpa [exSm] using ok_smooth (ops0_smoother_fgs c true hf rfl) hx hr ht
 
 /-- the implicitly extrapolated cycle on level 0 with the level's own vectors -/
-theorem extrap_ok (c : Cfg) (cy : Cycle.Cfg) (hl : cy.levels = c.levels) (h2 : 2 ≤ c.levels) (k : Kind) (fgs : Bool)
+theorem extrap_ok (c : Cfg) (cy : MGCycle.Cfg) (hl : cy.levels = c.levels) (h2 : 2 ≤ c.levels) (k : Kind) (fgs : Bool)
     (hm : c.extrapMode ≠ 0) (hf : fgsConsistent c.extrapMode fgs = true) :
     progOK c (extrap cy k fgs 0 (0, .sol) (0, .rhs) (0, .res)) = true := by
   have hr2 := rhsLevels_two c h2 hm
@@ -96,7 +96,7 @@ theorem extrap_ok (c : Cfg) (cy : Cycle.Cfg) (hl : cy.levels = c.levels) (h2 : 2
     cases k <;> simp [progOK_append, hrec]
 
 /-- one top-level cycle on level 0 -/
-theorem cycleAt0_ok (c : Cfg) (cy : Cycle.Cfg) (hl : cy.levels = c.levels) (h2 : 2 ≤ c.levels) (k : Kind) (fgs : Bool)
+theorem cycleAt0_ok (c : Cfg) (cy : MGCycle.Cfg) (hl : cy.levels = c.levels) (h2 : 2 ≤ c.levels) (k : Kind) (fgs : Bool)
     (hf : fgsConsistent c.extrapMode fgs = true) :
     progOK c (cycleAt cy k (c.extrapMode != 0) fgs 0) = true := by
   have h1 := rhsLevels_pos c h2
@@ -110,14 +110,14 @@ theorem cycleAt0_ok (c : Cfg) (cy : Cycle.Cfg) (hl : cy.levels = c.levels) (h2 :
     exact extrap_ok c cy hl h2 k fgs hm hf
 
 /-- a plain cycle on a level `d ≥ 1` inside the FMG start-up (all right-hand sides built) -/
-theorem cycleAt_plain_ok (c : Cfg) (cy : Cycle.Cfg) (hl : cy.levels = c.levels) (k : Kind) (fgs : Bool) (d : Nat)
+theorem cycleAt_plain_ok (c : Cfg) (cy : MGCycle.Cfg) (hl : cy.levels = c.levels) (k : Kind) (fgs : Bool) (d : Nat)
     (hd : d + 1 < c.levels) (hr : d < rhsLevels c) (h0 : d = 0 → (opsAt c 0).smoother = true) :
     progOK c (cycleAt cy k false fgs d) = true := by
   simp only [cycleAt, Bool.false_eq_true, if_false]
   exact plain_ok c cy hl _ k d _ _ _ (by omega) h0 ⟨by omega, by simp⟩ ⟨by omega, fun _ => hr⟩ ⟨by omega, by simp⟩
 
 /-- the prolongation loop of the FMG start-up from level `cur` down to level 0 -/
-theorem fmgLoop_ok (c : Cfg) (cy : Cycle.Cfg) (hl : cy.levels = c.levels) (h2 : 2 ≤ c.levels) (hfmg : c.fmg = true)
+theorem fmgLoop_ok (c : Cfg) (cy : MGCycle.Cfg) (hl : cy.levels = c.levels) (h2 : 2 ≤ c.levels) (hfmg : c.fmg = true)
     (fk : Kind) (fi : Nat) (fgs : Bool) (hf : fgsConsistent c.extrapMode fgs = true) :
     ∀ cur, cur < c.levels → progOK c (fmgLoop cy fk fi (c.extrapMode != 0) fgs cur) = true := by
   have hrl := rhsLevels_fmg c hfmg
